@@ -130,7 +130,33 @@ func Pipeline(id int, seed int64, deadline time.Duration) PipeRun {
 		}
 		run.Done = true
 	case <-time.After(deadline):
-		run.Blocked = blockedInLibrary()
+		// slow is not blocked: wait as long as readers keep receiving values
+		var progress = func() int {
+			mu.Lock()
+			defer mu.Unlock()
+			var n = 0
+			for _, r := range run.Readers {
+				n += len(r.Got)
+			}
+			return n
+		}
+		for tries := 0; tries < 6 && !run.Done; tries++ {
+			var before = progress()
+			select {
+			case <-finished:
+				for i := 0; i < 2000 && grp.n.Load() != 0; i++ {
+					time.Sleep(50 * time.Microsecond)
+				}
+				run.Done = true
+			case <-time.After(deadline):
+				if progress() == before {
+					tries = 6
+				}
+			}
+		}
+		if !run.Done {
+			run.Blocked = blockedInLibrary()
+		}
 	}
 	mu.Lock()
 	defer mu.Unlock()
